@@ -97,7 +97,7 @@ def _outs(repo, fn, args, what, kwargs=None, setup=None):
     return outs
 
 
-def run(repo: Repo, rep: Report):
+def run(repo: Repo, rep: Report, only=None):
     T = repo["svg_transform"]
     folder = Folder(repo)
     for rid, txt in [
@@ -241,6 +241,10 @@ def run(repo: Repo, rep: Report):
                      "(first listed first)", T, T.func("Affine2D.compose_ltr"))
 
     _check_parser(repo, rep, folder)
+    if only is not None:
+        if "rect_to_rect" in only:
+            _check_rect_to_rect(repo, rep, folder)
+        return
     _check_tostring(repo, rep)
     _check_rect_to_rect(repo, rep, folder)
     _check_decompose(repo, rep)
